@@ -30,26 +30,56 @@ AN = 'chess::chess_move::algebraic_notation::'
 TOALG = 'common::bitboard::square::to_algebraic'
 
 
+def char_kind(t):
+    """('F' | 'R', square term) when t is character 0 / 1 of to_algebraic(square) - however the character is obtained (a helper, chars().next(),
+    chars().nth(1), one cursor read twice) -, else None"""
+    guard = 0
+    while isinstance(t, tuple) and t and guard < 12:
+        guard += 1
+        if t[0] in ('ref', 'K', 'der', 'disp'):
+            t = t[1]
+        elif t[0] == 'call' and t[1].endswith('Clone>::clone') and len(t[2]) == 1:
+            t = t[2][0]
+        elif t[0] == 'fld' and str(t[2]).startswith('Some.0'):
+            t = t[1]
+        else:
+            break
+    if isinstance(t, tuple) and t and t[0] == 'charat' and t[2] in (0, 1):
+        s = t[1]
+        while s[0] in ('ref', 'K', 'der'):
+            s = s[1]
+        if s[0] == 'call' and s[1] == TOALG and len(s[2]) == 1:
+            return ('F' if t[2] == 0 else 'R', s[2][0])
+    return None
+
+
+def mentions_move(sq, who):
+    """the square term is from_square() of the analysed move (parameter `who`) / of something else"""
+    fs = [s_ for s_ in subterms(sq) if s_[0] == 'call' and s_[1] == CHESSMOVE + '::from_square']
+    return bool(fs) and all(any(x == ('p', who) for x in subterms(f_[2][0])) for f_ in fs)
+
+
 def predicate_tables(ctx, fn_name):
     """closure name -> truth function {(same_file, same_rank): bool} of an `any` predicate over the other move's origin,
     or None when the predicate is not a boolean combination of 'same file' / 'same rank' tests"""
     facts = ctx.facts
     res = {}
     for c in facts.closures_of(fn_name):
-        outs = Engine(facts, readonly={AN + 'get_file_char', AN + 'get_rank_char', CHESSMOVE + '::from_square'}).run(c.name)
+        outs = Engine(facts, readonly={TOALG, CHESSMOVE + '::from_square'}).run(c.name)
         ctx.touch(c.name)
         rets = [o for o in outs if o.kind == 'return']
 
         def atom_kind(a):
             """'F' / 'R' for a comparison of the other move's file/rank char with a captured char, else None"""
-            calls = [s for s in subterms(a) if s[0] == 'call' and s[1] in (AN + 'get_file_char', AN + 'get_rank_char')]
+            kinds_ = [char_kind(s) for s in subterms(a) if s[0] == 'charat']
+            kinds_ = [k_ for k_ in kinds_ if k_ is not None]
             ups = [s for s in subterms(a) if s[0] == 'fld' and str(s[2]).startswith('upvar')]
-            if len(calls) != 1 or not ups:
+            if len(kinds_) != 1 or not ups:
                 return None
-            other = any(s[0] == 'call' and s[1] == CHESSMOVE + '::from_square' and s[2][0] != ('p', 1) for s in subterms(calls[0]))
-            if not other:
+            # the character of the OTHER move's origin (the closure's element, not the captured environment)
+            if any(s_[0] == 'fld' and str(s_[2]).startswith('upvar') for s_ in subterms(kinds_[0][1])):
                 return None
-            return 'F' if calls[0][1].endswith('get_file_char') else 'R'
+            return kinds_[0][0]
 
         def val_of(t, env):
             # t: boolean term over atoms
@@ -83,6 +113,8 @@ def predicate_tables(ctx, fn_name):
                 for o in rets:
                     match = True
                     for a, v in o.conds:
+                        if a[0] == 'haschar':
+                            continue            # the square name has that character (the other branch panics in unwrap)
                         av = val_of(a, env)
                         if av is None:
                             ok = False
@@ -106,7 +138,7 @@ def predicate_tables(ctx, fn_name):
 def upvar_kinds(ctx, fn_name):
     """for each any-closure: does the captured char compared with the other's FILE come from get_file_char(own origin)? (same for rank)"""
     facts = ctx.facts
-    ro = {CHESSMOVE + '::from_square', CHESSMOVE + '::captures', AN + 'get_file_char', AN + 'get_rank_char', TOALG, AN + 'get_ambiguous_moves'}
+    ro = {CHESSMOVE + '::from_square', CHESSMOVE + '::captures', TOALG, AN + 'get_ambiguous_moves'}
     outs = Engine(facts, readonly=ro).run(fn_name)
     kinds = {}
     for o in outs:
@@ -114,8 +146,8 @@ def upvar_kinds(ctx, fn_name):
             if e[0] == 'closure':
                 caps = []
                 for up in e[2]:
-                    s = show(up)
-                    caps.append('F' if 'get_file_char' in s and 'arg2' in s else ('R' if 'get_rank_char' in s and 'arg2' in s else '?'))
+                    ck = char_kind(up)
+                    caps.append(ck[0] if ck is not None and mentions_move(ck[1], 2) else '?')
                 kinds[e[1]] = caps
     return kinds
 
@@ -124,7 +156,7 @@ def r1_disambiguation(ctx):
     rule = 'C13.R1-disambiguation-table'
     facts = ctx.facts
     name = AN + 'get_disambiguating_chars'
-    ro = {CHESSMOVE + '::from_square', CHESSMOVE + '::captures', AN + 'get_file_char', AN + 'get_rank_char', TOALG, AN + 'get_ambiguous_moves'}
+    ro = {CHESSMOVE + '::from_square', CHESSMOVE + '::captures', TOALG, AN + 'get_ambiguous_moves'}
     outs = Engine(facts, readonly=ro).run(name)
     ctx.touch(name)
     preds = predicate_tables(ctx, name)
@@ -156,11 +188,9 @@ def r1_disambiguation(ctx):
         s = show(val)
         if val == C(''):
             out = ''
-        elif 'get_file_char' in s and 'get_rank_char' not in s and 'to_algebraic' not in s and 'arg2' in s:
-            out = 'file'
-        elif 'get_rank_char' in s and 'get_file_char' not in s and 'to_algebraic' not in s and 'arg2' in s:
-            out = 'rank'
-        elif 'to_algebraic' in s and 'from_square' in s and 'arg2' in s:
+        elif char_kind(val) is not None and mentions_move(char_kind(val)[1], 2):
+            out = 'file' if char_kind(val)[0] == 'F' else 'rank'
+        elif 'charat' not in s and 'to_algebraic' in s and 'from_square' in s and 'arg2' in s:
             out = 'square'
         else:
             out = '?' + s[:40]
@@ -220,7 +250,7 @@ def r1_disambiguation(ctx):
             okc = False
         if '?' in caps:
             okc = False
-    ctx.ob(rule, name, 'predicates compare with the moving piece\'s own file / rank character', okc, found=uk, expected='captured get_file_char(from) / get_rank_char(from)')
+    ctx.ob(rule, name, 'predicates compare with the moving piece\'s own file / rank character', okc, found=uk, expected='captured character 0 / 1 of to_algebraic(chess_move.from_square())')
 
 
 def _strip(t):
@@ -550,12 +580,6 @@ def r3_assembly(ctx):
         else:
             oke = oke and o.value == C('')
     ctx.ob(rule, n5, '"=" + piece letter for promotions, nothing otherwise', okp and oke, expected='=Q/=R/=B/=N')
-    # file / rank chars
-    for nm, nth in ((AN + 'get_file_char', 0), (AN + 'get_rank_char', 1)):
-        outs = Engine(facts, readonly={TOALG}).run(nm)
-        s = ' '.join(show(o.value) for o in outs if o.kind == 'return') + ' '.join(str(e[1]) + show(e[2][-1]) if e[0] == 'call' and e[2] else '' for o in outs for e in o.events)
-        ok = 'to_algebraic' in s and (('nth' in s and ', 1)' in s) if nth else ('next' in s and 'nth' not in s))
-        ctx.ob(rule, nm, 'character %d of the origin square name' % nth, ok, found=s[:160], nontrivial=False)
 
 
 def r4_source(ctx):
